@@ -58,6 +58,17 @@ def main(tier, replay):
                     scs.append(to_scenario(len(scs) + 1, lg, q, b, rng))
             if len(scs) < 10:
                 raise Infra("too few behaviours")
+            # the first concurrent callers of a freshly created bucket (BucketInit.tla): creation verified eager, lazy creation refuted
+            for variant, expect in (("eager", False), ("lazy", True)):
+                bi = vlib.tlc("flow", "BucketInit", "BucketInit.cfg", workers=8, timeout=600, consts={"Variant": '"%s"' % variant})
+                if bool(bi.violation) != expect:
+                    raise Infra("BucketInit.tla variant %s: unexpected result %s" % (variant, bi.violated()))
+                states, trans = states + bi.distinct, trans + bi.generated
+            for (q, b) in ((1, 1), (2, 4), (8, 8)):
+                steps = []
+                for k in range(60 if tier == "quick" else 600):
+                    steps += [{"k": "call", "n": rng.choice([4, 8, 16])}, {"k": "sleep", "ms": rng.choice([0, 125, 500])}, {"k": "call", "n": 3}, {"k": "recreate", "n": k}]
+                scs.append({"id": len(scs) + 1, "qps": q, "burst": b, "steps": steps})
         binp = os.path.join(wd, "tbucket.test")
         vlib.go_test_build("./tbucket", binp)
         traces, crashed = vlib.run_test_driver(binp, scs, wd, timeout=1200)
